@@ -134,7 +134,7 @@ def isSubseq : List (List Byte) → List (List Byte) → Bool
 
 /-- `txs`: the payload of every transmission, in order.  Reports whose text is none of the
     transmitted payloads (garbled by corruption) are C04's business, not this oracle's. -/
-def oracleC05 (txs : List (List Byte)) (bursts : List SBurst) (outs : List Out) : Option String :=
+def oracleC05With (HIST HOLD : Nat) (txs : List (List Byte)) (bursts : List SBurst) (outs : List Out) : Option String :=
   let reported := (outs.filterMap (fun o => (outText o).map (fun t => (o.t, t)))).filter (fun p => txs.contains p.2)
   if isSubseq (reported.map (·.2)) txs then none
   else
@@ -148,6 +148,9 @@ def oracleC05 (txs : List (List Byte)) (bursts : List SBurst) (outs : List Out) 
                 ∧ (b.bytes.take txt.length).map msk == txt)
         then some " [cause: stale history outlived the duplicate-suppression entry]" else none))
     some s!"reported messages are not an in-order subsequence of the transmissions (a transmission reported twice, or out of order){diag.getD ""}"
+
+def oracleC05 (txs : List (List Byte)) (bursts : List SBurst) (outs : List Out) : Option String :=
+  oracleC05With HIST HOLD txs bursts outs
 
 /-- dedup window clauses, for scenarios that repeat one message: every repeat whose bursts all end
     before `report + HIST` must be suppressed; a repeat that lies entirely after the window must be
